@@ -208,36 +208,68 @@ func c15Mutate(g *hx.Gen, s []byte, nsub, nindel int) []byte {
 	return c15MutateW(g, s, nsub, widths)
 }
 
-// c15MutateW: nsub substitutions and one indel of each given width
+// c15MutateW: nsub substitutions and one indel of each given width.  The first and last 12 letters
+// stay intact and any two edits are at least 10 letters apart ("small indels", identity above the
+// threshold locally as well: a burst of edits costing more than BlockCost = 15 ends an x-drop
+// extension whatever the overall identity).  Edits that cannot be placed are dropped.
 func c15MutateW(g *hx.Gen, s []byte, nsub int, widths []int) []byte {
+	return c15MutateS(g, s, nsub, widths, 10)
+}
+
+// c15MutateS is c15MutateW with the minimum distance between two edits as a parameter
+func c15MutateS(g *hx.Gen, s []byte, nsub int, widths []int, spacing int) []byte {
 	c := append([]byte{}, s...)
-	// keep the first and last 12 letters intact so that the copy's ends are alignable
-	lo, hi := 12, len(c)-12
+	lo, hi := 12, len(c)-16
 	if hi <= lo {
 		return c
 	}
-	for k := 0; k < nsub; k++ {
-		i := lo + g.Intn(hi-lo)
-		for {
-			b := "acgt"[g.Intn(4)]
-			if b != c[i] {
-				c[i] = b
-				break
+	type edit struct{ pos, width int } // width 0 = substitution, >0 insertion, <0 deletion
+	var edits []edit
+	place := func(w int) {
+		for try := 0; try < 40; try++ {
+			p := lo + g.Intn(hi-lo)
+			ok := true
+			for _, e := range edits {
+				d := e.pos - p
+				if d < 0 {
+					d = -d
+				}
+				if d < spacing {
+					ok = false
+					break
+				}
+			}
+			if ok {
+				edits = append(edits, edit{p, w})
+				return
 			}
 		}
 	}
 	for _, w := range widths {
-		if len(c)-12-lo <= 0 {
-			break
+		if g.Chance(0.5) {
+			w = -w
 		}
-		i := lo + g.Intn(len(c)-12-lo)
-		if g.Chance(0.5) { // deletion
-			if i+w < len(c)-12 {
-				c = append(c[:i], c[i+w:]...)
+		place(w)
+	}
+	for k := 0; k < nsub; k++ {
+		place(0)
+	}
+	sort.Slice(edits, func(i, j int) bool { return edits[i].pos > edits[j].pos })
+	for _, e := range edits {
+		switch {
+		case e.width == 0:
+			for {
+				b := "acgt"[g.Intn(4)]
+				if b != c[e.pos] {
+					c[e.pos] = b
+					break
+				}
 			}
-		} else {
-			ins := g.Letters("acgt", w)
-			c = append(c[:i], append(ins, c[i:]...)...)
+		case e.width < 0:
+			c = append(c[:e.pos], c[e.pos-e.width:]...)
+		default:
+			ins := g.Letters("acgt", e.width)
+			c = append(c[:e.pos], append(ins, c[e.pos:]...)...)
 		}
 	}
 	return c
@@ -317,6 +349,17 @@ func c15Workload(g *hx.Gen) string {
 		for try := 0; try < 50 && !placed; try++ {
 			a := g.Intn(len(target) - len(rep))
 			b := g.Intn(len(qseq) - len(cp))
+			// sequence boundaries: a copy starting at the first or ending at the last letter
+			switch g.Intn(12) {
+			case 0:
+				a = 0
+			case 1:
+				a = len(target) - len(rep)
+			case 2:
+				b = 0
+			case 3:
+				b = len(qseq) - len(cp)
+			}
 			uq := usedQ
 			if self {
 				uq = usedT
@@ -355,7 +398,7 @@ func c15Workload(g *hx.Gen) string {
 			}
 			rep = g.Letters("acgt", R)
 			full := float64(R) * (1 - float64(minIDm)/1000)
-			cp = c15Mutate(g, rep, int(full*(1.3+1.2*g.Float64()))+2, 0)
+			cp = c15MutateS(g, rep, int(full*(1.3+1.2*g.Float64()))+2, nil, 1)
 		} else {
 			R := minLen * g.Range(55, 97) / 100
 			rep = g.Letters("acgt", R)
